@@ -90,6 +90,39 @@ Theorem C05x_fast_SIR_const_rho_conflicts_rejected : forall g tau gamma i0 r0 rh
   fast_sir_const g tau gamma i0 r0 (Some rho) tmin tmax full fuel = BFail EoNError.
 Proof. exact fast_sir_const_rho_conflicts_rejected. Qed.
 
+(* the DEFAULT start node when initial_recovereds is given (initial_infecteds None, rho None;
+   /repo 0a3e1b4): random.sample draws ONE node from [node for node in G if node not in
+   initial_recovereds]; the start node is a graph node that is not initially recovered and the
+   run starts as requested -- [ic_sirb] with I0 = [u]: row 0 = (tmin, N-1-|R0|, 1, |R0|),
+   the initially recovered nodes keep [(tmin,R)] *)
+Theorem C05x_esir_default_start_node_not_initially_recovered : forall g prov r0 tmin tmax full fuel ds o tr,
+  xlt tmin tmax = true -> provider_ok prov ->
+  exec (fast_nonmarkov fifo g prov None (Some r0) None tmin tmax full fuel) ds [] = (Ok o, tr) ->
+  exists u, In u (gnodes g) /\ ~ In u r0 /\
+    ic_sirb (gnodes g) [u] r0 tmin (so_rows (fst o)) (option_map fd_hist (so_full (fst o))) = true.
+Proof.
+  intros g prov r0 tmin tmax full fuel ds o tr Hl Hp H.
+  exact (esir_default_start_with_recovereds g prov r0 tmin tmax full fuel o Hl Hp (exec_reach _ _ _ _ _ _ H)).
+Qed.
+
+Theorem C05x_fast_SIR_const_default_start_node_not_initially_recovered : forall g tau gamma r0 tmin tmax full fuel ds o tr,
+  xlt tmin tmax = true ->
+  bexec (fast_sir_const g tau gamma None (Some r0) None tmin tmax full fuel) ds [] = (Ok o, tr) ->
+  exists u, In u (gnodes g) /\ ~ In u r0 /\
+    ic_sirb (gnodes g) [u] r0 tmin (so_rows (fst o)) (option_map fd_hist (so_full (fst o))) = true.
+Proof. exact fast_sir_const_default_start_with_recovereds. Qed.
+
+(* every node initially recovered: random.sample([], 1) raises ValueError -- the only call made *)
+Theorem C05x_esir_default_start_all_recovered_is_ValueError : forall tb g prov r0 tmin tmax full fuel ds,
+  (forall u, In u (gnodes g) -> In u r0) ->
+  exec (fast_nonmarkov tb g prov None (Some r0) None tmin tmax full fuel) ds [] = (Err ValueErr, [CSample [] 1]).
+Proof. exact esir_default_start_all_recovered. Qed.
+
+Theorem C05x_fast_SIR_const_default_start_all_recovered_is_ValueError : forall g tau gamma r0 tmin tmax full fuel ds,
+  (forall u, In u (gnodes g) -> In u r0) ->
+  bexec (fast_sir_const g tau gamma None (Some r0) None tmin tmax full fuel) ds [] = (Err ValueErr, [BCSample [] 1]).
+Proof. exact fast_sir_const_default_start_all_recovered. Qed.
+
 Theorem C05x_ic_sirb_sound : forall nodes i0 r0 tmin rows hist, ic_sirb nodes i0 r0 tmin rows hist = true ->
   (exists t rest, rows = (t, [Z.of_nat (length nodes) - Z.of_nat (length i0) - Z.of_nat (length r0);
                               Z.of_nat (length i0); Z.of_nat (length r0)]%Z) :: rest /\ t == tmin) /\
@@ -183,6 +216,19 @@ Example C05x_ic_sirb_rejects :
   ic_sirb [0;1;2]%N [0%N] [2%N] 0 [(0, [1;1;1]%Z)] (Some [(0%N, [(0, stI); (1, stR)]); (1%N, [(0, stS)]); (2%N, [(0, stR)])]) = true.
 Proof. vm_compute. repeat split. Qed.
 
+(* default start node: path 0 - 1, isolated 2, nodes 0 and 2 initially recovered: whatever the
+   sample draw (0, 1, 2 = every rotation of the candidate list), the start node is 1, the
+   population handed to random.sample is [1], row 0 is (0,1,2); with all three recovered: ValueError *)
+Example C05x_default_start_example :
+  (forall d, In d [0; 1; 2] ->
+     match exec (fast_sir_edge gp 1 1 None (Some [0%N; 2%N]) None 0 None true 20) [d; 1] [] with
+     | (Ok (o, _), tr) => ic_sirb (gnodes gp) [1%N] [0%N; 2%N] 0 (so_rows o) (option_map fd_hist (so_full o)) = true /\
+                          map snd (firstn 1 (so_rows o)) = [[0;1;2]%Z] /\ hd_error tr = Some (CSample [[1%N]] 1)
+     | _ => False
+     end) /\
+  exec (fast_sir_edge gp 1 1 None (Some [0%N; 1%N; 2%N]) None 0 None true 20) [0; 1] [] = (Err ValueErr, [CSample [] 1]).
+Proof. split; [intros d [<-|[<-|[<-|[]]]]; vm_compute; repeat split|vm_compute; reflexivity]. Qed.
+
 Definition sp2 : list trans := [mkTr [0%N] [1%N] 1 WNone; mkTr [0%N] [2%N] 1 WNone].
 Definition g2 : graph := mkGraph [0;1]%N (fun _ => []) (fun _ => []) false (fun _ _ => 1) (fun _ => 1) false false.
 
@@ -203,6 +249,11 @@ Print Assumptions C05x_esir_tables_starts_as_requested.
 Print Assumptions C05x_esir_rho_selects_round_N_rho_distinct_nodes.
 Print Assumptions C05x_esir_rho_conflicts_rejected.
 Print Assumptions C05x_fast_SIR_const_rho_conflicts_rejected.
+Print Assumptions C05x_esir_default_start_node_not_initially_recovered.
+Print Assumptions C05x_fast_SIR_const_default_start_node_not_initially_recovered.
+Print Assumptions C05x_esir_default_start_all_recovered_is_ValueError.
+Print Assumptions C05x_fast_SIR_const_default_start_all_recovered_is_ValueError.
+Print Assumptions C05x_default_start_example.
 Print Assumptions C05x_ic_sirb_sound.
 Print Assumptions C05x_simple_starts_as_requested.
 Print Assumptions C05x_simple_passes_checker.
